@@ -39,8 +39,21 @@ def new_interp(prog, poll_budget=1, loop_bound=6):
         if o.oid == 'supq':
             return [(st, Opaque('SupervisionEvent', info=idterm))]
         if o.oid == 'msgq':
+            bd = prog.crate.struct('BoxedMessage')
+            if not bd or not {'msg'} <= set(bd['fields']):
+                raise Inconclusive('BoxedMessage fields changed')
+
+            def boxed(serialized):
+                f = {'msg': models_std.NONE if serialized else models_std.some(Opaque('dyn-msg', info=idterm)),
+                     'serialized_msg': models_std.some(Opaque('SerializedMessage', info=idterm)) if serialized else models_std.NONE,
+                     'span': models_std.NONE}
+                return Agg('BoxedMessage', [f[k] for k in bd['fields']])
             s2 = st.fork()
-            return [(st, Enum('MuxedMessage', 'Drain', 0, ())), (s2, Enum('MuxedMessage', 'Message', 1, (Opaque('boxed', info=idterm),)))]
+            res = [(st, Enum('MuxedMessage', 'Drain', 0, ())), (s2, Enum('MuxedMessage', 'Message', 1, (boxed(False),)))]
+            if 'serialized_msg' in bd['fields']:
+                s3 = s2.fork()
+                res.append((s3, Enum('MuxedMessage', 'Message', 1, (boxed(True),))))
+            return res
         return [(st, Opaque('received', info=idterm))]
     I.hooks['chan_value'] = chan_value
     return I
